@@ -6,6 +6,7 @@ import (
 	"fmt"
 	"log/slog"
 	"reflect"
+	"sync"
 )
 
 var (
@@ -100,7 +101,16 @@ func setPropsFromMap(cfg *Config, updates map[string]any) (stagedProps []stagedP
 	return setPropsFromMapRecursive(reflect.ValueOf(cfg), updates)
 }
 
+// One update at a time (the API serves its requests concurrently): an update stages, verifies,
+// writes the file and commits, and every one of these steps works on what the previous update
+// left behind. Two of them interleaved wrote a file without the other's accepted value, and the
+// discard of a refused one dropped what the other had staged.
+var updateMu sync.Mutex
+
 func UpdatePartialFromConfig(cfg *Config, updates map[string]any) (UpdateStatus, error) {
+	updateMu.Lock()
+	defer updateMu.Unlock()
+
 	slog.Info("Updating config with partial JSON", "updates", updates)
 
 	if updates == nil {
